@@ -651,3 +651,319 @@ Section Histories.
       constructor; [|exact F]. unfold obs_ok. cbn [fst snd]. exact Ho.
   Qed.
 End Histories.
+
+(** ---- 6. sorted means: no two stored variants with equal header lists ---- *)
+Lemma vsorted_NoDup {A} (l : list (A * hcoll)) : vsorted l -> NoDup (map snd l).
+Proof.
+  induction 1 as [|p l S IH F]; cbn [map]; constructor; [|exact IH].
+  intros Hin. apply in_map_iff in Hin as (q & Eq & Hq). rewrite Forall_forall in F.
+  specialize (F _ Hq). rewrite Eq in F. exact (hlt_irrefl _ F).
+Qed.
+
+(** ---- 7. the [vary] header of a reply ---- *)
+Lemma finishV_vary negotiate rules_of r f lm cached :
+  let rp := finishV negotiate r f (own_tuple rules_of r) lm cached in
+  (rp_body rp <> [] ->
+   assoc (B "vary") (rp_headers rp)
+   = Some (B "accept-encoding, range" ++ concat (map (fun ru => B ", " ++ ru_name ru) (rules_of (rq_path r)))))
+  /\ (rp_body rp = [] -> assoc (B "vary") (rp_headers rp)
+                         = match negotiate r f with Some _ => None | None => assoc (B "vary") (f_headers f) end).
+Proof.
+  unfold finishV, own_tuple. destruct (negotiate r f) as [[st body]|]; cbn [rp_body rp_headers]; split; intros Hb.
+  - apply apply_header_vary. exact Hb.
+  - rewrite Hb. reflexivity.
+  - apply apply_header_vary. exact Hb.
+  - rewrite Hb. reflexivity.
+Qed.
+
+(** ---- 8. the server refines the finite map (page, transformed header list) -> response ---- *)
+Lemma hc_eqb_sym a c : hc_eqb a c = hc_eqb c a.
+Proof.
+  destruct (hc_eqb a c) eqn:E1, (hc_eqb c a) eqn:E2; try reflexivity.
+  - apply hc_eqb_eq in E1. subst. rewrite hc_eqb_refl in E2. discriminate.
+  - apply hc_eqb_eq in E2. subst. rewrite hc_eqb_refl in E1. discriminate.
+Qed.
+Lemma beq_sym a c : beq a c = beq c a.
+Proof.
+  destruct (beq a c) eqn:E1, (beq c a) eqn:E2; try reflexivity.
+  - apply beq_eq in E1. subst. rewrite beq_refl in E2. discriminate.
+  - apply beq_eq in E2. subst. rewrite beq_refl in E1. discriminate.
+Qed.
+
+Lemma seen_find_nopage p t s : seen_has_page p s = false -> seen_find p t s = None.
+Proof.
+  induction s as [|[[p' t'] f] s IH]; cbn [seen_has_page existsb seen_find fst]; [reflexivity|].
+  intros H. apply orb_false_iff in H as [H1 H2]. rewrite H1. cbn [andb]. apply IH. exact H2.
+Qed.
+Lemma seen_has_page_clear_same p s : seen_has_page p (seen_clear p s) = false.
+Proof.
+  unfold seen_clear. induction s as [|[[p' t'] f] s IH]; cbn [filter fst]; [reflexivity|].
+  destruct (beq p p') eqn:E; cbn [negb]; [exact IH|].
+  cbn [seen_has_page existsb fst]. rewrite E. exact IH.
+Qed.
+Lemma seen_has_page_clear_other p q s : beq q p = false -> seen_has_page q (seen_clear p s) = seen_has_page q s.
+Proof.
+  intros Hq. unfold seen_clear. induction s as [|[[p' t'] f] s IH]; cbn [filter fst]; [reflexivity|].
+  destruct (beq p p') eqn:E; cbn [negb].
+  - cbn [seen_has_page existsb fst]. apply beq_eq in E. subst p'. rewrite Hq. exact IH.
+  - cbn [seen_has_page existsb fst]. f_equal. exact IH.
+Qed.
+Lemma seen_find_clear_other p q t s : beq q p = false -> seen_find q t (seen_clear p s) = seen_find q t s.
+Proof.
+  intros Hq. unfold seen_clear. induction s as [|[[p' t'] f] s IH]; cbn [filter fst]; [reflexivity|].
+  destruct (beq p p') eqn:E; cbn [negb].
+  - cbn [seen_find]. apply beq_eq in E. subst p'. rewrite Hq. exact IH.
+  - cbn [seen_find]. rewrite IH. reflexivity.
+Qed.
+
+Section RefinesMap.
+  Variable hstate : Type.
+  Variable compute : hstate -> request -> bool -> fat * hstate * list bytes.
+  Variable ims_on : bool.
+  Variable parse_ims : bytes -> option Z.
+  Variable sanitize_ok : request -> bool.
+  Variable prime : request -> request.
+  Variable negotiate : request -> fat -> option (N * bytes).
+  Variable rules_of : bytes -> list rule.
+  Variable dbg : bool.
+
+  (** every GET/HEAD response of the layer below is cacheable, under the path key, for ever *)
+  Definition always_stored : Prop := forall hs r, get_or_head (rq_method r) = true ->
+    let f := fst (fst (compute hs r true)) in
+    may_store true (rq_method r) f = true /\ lifetime_ms f = None /\ (f_spref f =? SP_QUERY) = false.
+  Hypothesis Hstore : always_stored.
+
+  Definition req_ok (r0 : request) : Prop :=
+    sanitize_ok r0 = true /\ (ims_on = false \/ header (B "if-modified-since") (prime r0) = None).
+  Definition op_ok (o : op) : Prop := match o with OReq r0 => req_ok r0 | _ => True end.
+
+  Notation serveX := (serveV hstate compute true ims_on parse_ims sanitize_ok prime negotiate rules_of dbg).
+  Notation stepX := (stepV hstate compute true ims_on parse_ims sanitize_ok prime negotiate rules_of dbg).
+  Notation runX := (runV hstate compute true ims_on parse_ims sanitize_ok prime negotiate rules_of dbg).
+  Notation specServe := (spec_serve hstate compute true ims_on prime negotiate rules_of).
+  Notation specStep := (spec_step hstate compute true ims_on prime negotiate rules_of).
+  Notation specRun := (spec_run hstate compute true ims_on prime negotiate rules_of).
+
+  Definition page_rel (p : bytes) (e : ventry) (s : seen_t) : Prop :=
+    vsorted (vr_resps (ve_var e)) /\ vr_refs (ve_var e) = rules_of p /\ ve_life e = None /\
+    seen_has_page p s = true /\ forall t, vfind t (vr_resps (ve_var e)) = seen_find p t s.
+  Definition RelS (c : vcache) (s : seen_t) : Prop :=
+    (forall s0 i, pc_find (KPathQuery s0 i) c = None) /\
+    forall p, match pc_find (KPath p) c with
+              | Some e => page_rel p e s
+              | None => seen_has_page p s = false
+              end.
+
+  Lemma RelS_nil : RelS [] [].
+  Proof. split; [reflexivity | intros p; reflexivity]. Qed.
+
+  Lemma key_pq_is_pq r : exists s0 i, key_pq r = KPathQuery s0 i.
+  Proof. unfold key_pq. destruct (path_query r) as [s0 i]. eauto. Qed.
+
+  Lemma vlookup_rel c s r now : RelS c s ->
+    vlookup r c now = ((key_p r, pc_find (KPath (rq_path r)) c), c).
+  Proof.
+    intros [Hpq Hp]. unfold vlookup, vget_item.
+    destruct (key_pq_is_pq r) as (s0 & i & ->). rewrite Hpq.
+    unfold key_p. specialize (Hp (rq_path r)).
+    destruct (pc_find (KPath (rq_path r)) c) as [e|]; [|reflexivity].
+    destruct Hp as (_ & _ & Hl & _). unfold vfresh. rewrite Hl. reflexivity.
+  Qed.
+
+  Lemma RelS_insert c s p e t f :
+    RelS c s ->
+    vsorted (vr_resps (ve_var e)) -> vr_refs (ve_var e) = rules_of p -> ve_life e = None ->
+    (forall t', vfind t' (vr_resps (ve_var e)) = if hc_eqb t t' then Some f else seen_find p t' s) ->
+    RelS (pc_insert (KPath p) e c) ((p, t, f) :: s).
+  Proof.
+    intros [Hpq Hp] S R Lf Hf. split.
+    - intros s0 i. rewrite pc_find_insert. cbn [key_eqb]. apply Hpq.
+    - intros q. rewrite pc_find_insert. cbn [key_eqb].
+      destruct (beq q p) eqn:Eq.
+      + apply beq_eq in Eq. subst q. unfold page_rel. split; [exact S|]. split; [exact R|]. split; [exact Lf|].
+        split.
+        * cbn [seen_has_page existsb fst]. rewrite beq_refl. reflexivity.
+        * intros t'. rewrite Hf. cbn [seen_find]. rewrite beq_refl. cbn [andb]. rewrite (hc_eqb_sym t' t). reflexivity.
+      + specialize (Hp q). destruct (pc_find (KPath q) c) as [e0|].
+        * destruct Hp as (S0 & R0 & L0 & H0 & F0). unfold page_rel. split; [exact S0|]. split; [exact R0|]. split; [exact L0|].
+          split.
+          -- cbn [seen_has_page existsb fst]. rewrite Eq. exact H0.
+          -- intros t'. cbn [seen_find]. rewrite Eq. cbn [andb]. apply F0.
+        * cbn [seen_has_page existsb fst]. rewrite Eq. exact Hp.
+  Qed.
+
+  Lemma serve_refines c s hs now r0 :
+    RelS c s -> req_ok r0 ->
+    exists c', serveX (c, hs) now r0
+               = Ok ((c', snd (fst (fst (fst (specServe s hs r0)))),
+                      snd (fst (fst (specServe s hs r0))), snd (fst (specServe s hs r0))), snd (specServe s hs r0))
+               /\ RelS c' (fst (fst (fst (fst (specServe s hs r0))))).
+  Proof.
+    intros HR [Hok Hims].
+    unfold serveV, serveV_phase1, spec_serve. cbn [negb]. rewrite Hok. set (r := prime r0) in *.
+    rewrite (vlookup_rel c s r now HR). cbn [andb].
+    pose proof HR as [Hpq Hp]. specialize (Hp (rq_path r)).
+    destruct (get_or_head (rq_method r)) eqn:GH; cbn [andb].
+    2:{ (* not GET/HEAD: computed, never stored *)
+      assert (Hms : forall f, may_store true (rq_method r) f = false).
+      { intros f. unfold may_store, wants_cache. rewrite GH, !andb_false_r. reflexivity. }
+      assert (Hw : forall f, wants_cache true (rq_method r) f = false).
+      { intros f. unfold wants_cache. rewrite GH, !andb_false_r. reflexivity. }
+      assert (E : forall c1, missV hstate compute true ims_on negotiate rules_of dbg c1 hs now r true
+                  = Ok ((c1, snd (fst (compute hs r true))),
+                        finishV negotiate r (fst (fst (compute hs r true))) (own_tuple rules_of r) false false,
+                        snd (compute hs r true), [r])).
+      { intros c1. unfold missV, new_and_cache. destruct (compute hs r true) as [[f hs'] lg]. cbn [fst snd].
+        rewrite vr_new_eq. cbn [vr_first vr_resps]. rewrite Hms, Hw, andb_false_r. reflexivity. }
+      destruct (pc_find (KPath (rq_path r)) c) as [e|]; cbn [serveV_phase2 snd];
+        rewrite E; destruct (compute hs r true) as [[f hs'] lg]; cbn [fst snd]; rewrite !andb_false_r;
+        exists c; (split; [reflexivity | exact HR]). }
+    destruct (pc_find (KPath (rq_path r)) c) as [e|] eqn:F.
+    - (* the page has an entry *)
+      destruct Hp as (S & Hrefs & Hl & Hhas & Hfind).
+      assert (Hno : (match (if ims_on then match header (B "if-modified-since") r with
+                                           | Some v => parse_ims v | None => None end else None) with
+                     | Some t => ims_fresh t (ve_created e) | None => false end) = false).
+      { destruct Hims as [-> | Hh]; [reflexivity|]. fold r in Hh. rewrite Hh. destruct ims_on; reflexivity. }
+      rewrite Hno. clear Hno.
+      assert (Ht : headers_for_request (vr_refs (ve_var e)) r = own_tuple rules_of r).
+      { rewrite Hrefs. reflexivity. }
+      destruct (get_by_request_sorted (ve_var e) r S) as [(f0 & Ef & _ & Eg) | (En & LL & G & El & Eg & FL & FG)];
+        rewrite Eg; rewrite Ht in *.
+      + (* hit *)
+        rewrite <- Hfind, Ef. cbn [fst snd]. exists c. split; [reflexivity | exact HR].
+      + (* this variant is missing: compute, push, re-insert *)
+        rewrite <- Hfind, En. cbn [serveV_phase2 snd]. unfold vary_missing.
+        pose proof (Hstore hs r GH) as HS.
+        destruct (compute hs r true) as [[f hs'] lg] eqn:C. cbn [fst snd] in *.
+        destruct HS as (Hms & Hlf & Hq).
+        unfold vrelookup, vget_item. cbn [key_p]. unfold key_p. rewrite F. unfold vfresh. rewrite Hl.
+        rewrite Eg. rewrite (push_at dbg (ve_var e) LL G f _ El) by (rewrite <- Ht; apply headers_for_request_length).
+        rewrite Hl. cbn [option_map]. rewrite Hhas, !andb_true_r. cbn [andb].
+        eexists. split; [reflexivity|].
+        apply RelS_insert; cbn [ve_var vr_resps vr_refs ve_life]; try assumption; try reflexivity.
+        * apply insert_sorted; [rewrite <- El; exact S | exact FL | exact FG].
+        * intros t'. rewrite vfind_insert by exact FL. rewrite <- El, Hfind. reflexivity.
+    - (* first request to the page *)
+      rewrite (seen_find_nopage _ _ _ Hp). cbn [serveV_phase2 snd]. unfold missV, new_and_cache.
+      pose proof (Hstore hs r GH) as HS.
+      destruct (compute hs r true) as [[f hs'] lg] eqn:C. cbn [fst snd] in *.
+      destruct HS as (Hms & Hlf & Hq).
+      rewrite vr_new_eq. cbn [vr_first vr_resps]. rewrite Hms.
+      assert (Hw : wants_cache true (rq_method r) f = true).
+      { unfold may_store in Hms. apply andb_true_iff in Hms as [Hms _]. apply andb_true_iff in Hms as [Hms _]. exact Hms. }
+      rewrite Hw, Hp, !andb_true_r. cbn [andb].
+      unfold insert_key. rewrite Hq, Hlf. unfold key_p.
+      eexists. split; [reflexivity|].
+      apply RelS_insert; cbn [ve_var vr_resps vr_refs ve_life]; try assumption; try reflexivity.
+      * constructor; constructor.
+      * intros t'. unfold vfind, own_tuple. cbn [find snd]. rewrite (seen_find_nopage _ t' _ Hp).
+        destruct (hc_eqb (headers_for_request (rules_of (rq_path r)) r) t'); reflexivity.
+  Qed.
+
+  Lemma step_refines c s hs now o :
+    RelS c s -> op_ok o ->
+    exists c', stepX (c, hs) now o
+               = Ok ((c', snd (fst (fst (specStep s hs o)))), (match o with OWait ms => now + ms | _ => now end),
+                     snd (fst (specStep s hs o)), snd (specStep s hs o))
+               /\ RelS c' (fst (fst (fst (specStep s hs o)))).
+  Proof.
+    intros HR Ho. destruct o as [r0 | r | | ms]; cbn [stepV spec_step].
+    - destruct (serve_refines c s hs now r0 HR Ho) as (c' & E & R'). rewrite E.
+      destruct (specServe s hs r0) as [[[[s' hs'] rp] lg] calls]. cbn [fst snd] in *.
+      exists c'. split; [reflexivity | exact R'].
+    - cbn [fst snd]. pose proof HR as [Hpq Hp].
+      destruct (key_pq_is_pq r) as (s0 & i & Epq). rewrite Epq, Hpq. unfold key_p.
+      exists (vclear_page r c). split.
+      + f_equal. f_equal. f_equal. f_equal. specialize (Hp (rq_path r)).
+        destruct (pc_find (KPath (rq_path r)) c) as [e|]; [destruct Hp as (_ & _ & _ & -> & _) | rewrite Hp]; reflexivity.
+      + unfold vclear_page. rewrite Epq. unfold key_p. split.
+        * intros s1 i1. rewrite !pc_find_remove. cbn [key_eqb].
+          destruct (beq s1 s0 && Nat.eqb i1 i); apply Hpq || reflexivity.
+        * intros q. rewrite !pc_find_remove. cbn [key_eqb].
+          destruct (beq q (rq_path r)) eqn:Eq.
+          -- apply beq_eq in Eq. subst q. apply seen_has_page_clear_same.
+          -- specialize (Hp q). destruct (pc_find (KPath q) c) as [e|].
+             ++ destruct Hp as (S0 & R0 & L0 & H0 & F0). unfold page_rel.
+                split; [exact S0|]. split; [exact R0|]. split; [exact L0|]. split.
+                ** rewrite seen_has_page_clear_other by exact Eq. exact H0.
+                ** intros t. rewrite seen_find_clear_other by exact Eq. apply F0.
+             ++ rewrite seen_has_page_clear_other by exact Eq. exact Hp.
+    - cbn [fst snd]. exists []. split; [reflexivity | apply RelS_nil].
+    - cbn [fst snd]. exists c. split; [reflexivity | exact HR].
+  Qed.
+
+  (** [vary_refines_map]: for every history of requests (any method), page clears, clear-all and waits the
+      caching server's observations and handler invocations are those of the finite-map server *)
+  Lemma run_refines ops : forall c s hs now,
+    RelS c s -> Forall op_ok ops -> runX (c, hs) now ops = Ok (specRun s hs ops).
+  Proof.
+    induction ops as [|o ops IH]; intros c s hs now HR Hops; cbn [runV spec_run]; [reflexivity|].
+    inversion Hops as [|? ? Ho Hrest]; subst.
+    destruct (step_refines c s hs now o HR Ho) as (c' & E & R'). rewrite E.
+    destruct (specStep s hs o) as [[[s' hs'] ob] calls]. cbn [fst snd] in *.
+    rewrite (IH c' s' hs' _ R' Hrest). reflexivity.
+  Qed.
+
+  (** ---- one computation per distinct (page, transformed header list) ---- *)
+  Definition cls (r : request) : bytes * hcoll := (rq_path r, own_tuple rules_of r).
+  Definition seen_cls (s : seen_t) : list (bytes * hcoll) := map fst s.
+  Definition calls_of (l : list (obs * list request)) : list request := concat (map snd l).
+  Definition gh_req (o : op) : Prop :=
+    match o with OReq r0 => get_or_head (rq_method (prime r0)) = true | _ => False end.
+
+  Lemma seen_find_none_iff p t s : seen_find p t s = None <-> ~ In (p, t) (seen_cls s).
+  Proof.
+    induction s as [|[[p' t'] f] s IH]; cbn [seen_find seen_cls map fst In].
+    - split; [intros _ [] | reflexivity].
+    - destruct (beq p p' && hc_eqb t t') eqn:E.
+      + apply andb_true_iff in E as [E1 E2]. apply beq_eq in E1. apply hc_eqb_eq in E2. subst.
+        split; [discriminate | intros H; exfalso; apply H; left; reflexivity].
+      + rewrite IH. unfold seen_cls. split.
+        * intros H [Eq | Hin]; [|exact (H Hin)]. inversion Eq; subst. rewrite beq_refl, hc_eqb_refl in E. discriminate.
+        * intros H Hin. apply H. right. exact Hin.
+  Qed.
+
+  Lemma seen_find_some_in p t s f : seen_find p t s = Some f -> In (p, t) (seen_cls s).
+  Proof.
+    induction s as [|[[p' t'] f'] s IH]; cbn [seen_find seen_cls map fst In]; [discriminate|].
+    destruct (beq p p' && hc_eqb t t') eqn:E.
+    - apply andb_true_iff in E as [E1 E2]. apply beq_eq in E1. apply hc_eqb_eq in E2. subst. intros _. left. reflexivity.
+    - intros H. right. apply IH. exact H.
+  Qed.
+
+  Lemma spec_once ops : forall s hs,
+    Forall gh_req ops ->
+    NoDup (map cls (calls_of (specRun s hs ops))) /\
+    (forall r, In r (calls_of (specRun s hs ops)) -> ~ In (cls r) (seen_cls s)) /\
+    (forall r0, In (OReq r0) ops -> In (cls (prime r0)) (seen_cls s ++ map cls (calls_of (specRun s hs ops)))).
+  Proof.
+    induction ops as [|o ops IH]; intros s hs Hops.
+    - cbn. split; [constructor | split; [intros r [] | intros r0 []]].
+    - inversion Hops as [|? ? Ho Hrest]; subst. destruct o as [r0 | r | | ms]; try contradiction.
+      cbn [gh_req] in Ho. cbn [spec_run spec_step]. unfold spec_serve. rewrite Ho. cbn [andb].
+      set (r := prime r0) in *.
+      destruct (seen_find (rq_path r) (own_tuple rules_of r) s) as [f|] eqn:Ef.
+      + (* served from the map: no computation *)
+        unfold calls_of. cbn [map snd concat app]. fold (calls_of (specRun s hs ops)).
+        destruct (IH s hs Hrest) as (N1 & N2 & N3). split; [exact N1|]. split; [exact N2|].
+        intros r1 [Eq | Hin]; [|apply N3; exact Hin].
+        inversion Eq; subst r1. apply in_or_app. left.
+        apply (seen_find_some_in _ _ _ _ Ef).
+      + destruct (compute hs r true) as [[f hs'] lg]. unfold calls_of. cbn [map snd concat app fst].
+        fold (calls_of (specRun ((rq_path r, own_tuple rules_of r, f) :: s) hs' ops)).
+        destruct (IH ((rq_path r, own_tuple rules_of r, f) :: s) hs' Hrest) as (N1 & N2 & N3).
+        cbn [seen_cls map fst] in N2, N3. fold (seen_cls s) in N2, N3.
+        split; [|split].
+        * cbn [map]. constructor; [|exact N1]. intros Hin. apply in_map_iff in Hin as (r1 & Ec & H1).
+          apply (N2 r1 H1). left. unfold cls in *. symmetry. exact Ec.
+        * intros r1 [Eq | Hin].
+          -- subst r1. apply seen_find_none_iff. exact Ef.
+          -- intros Hc. apply (N2 r1 Hin). right. exact Hc.
+        * intros r1 [Eq | Hin].
+          -- inversion Eq; subst r1. apply in_or_app. right. left. reflexivity.
+          -- specialize (N3 r1 Hin). cbn [app] in N3. destruct N3 as [Eq | N3].
+             ++ apply in_or_app. right. left. exact Eq.
+             ++ apply in_app_or in N3. apply in_or_app. destruct N3 as [N3 | N3]; [left; exact N3 | right; right; exact N3].
+  Qed.
+End RefinesMap.
